@@ -174,6 +174,22 @@ impl Sched {
         }
     }
 
+    /// wait for a thread that holds an outstanding grant (it was `Blocked`) to reach its next yield point
+    pub fn wait_landed(&self, tid: usize, timeout: Duration) -> StepResult {
+        let mut g = self.inner.lock();
+        let deadline = Instant::now() + timeout;
+        loop {
+            match g.threads[tid] {
+                TState::Parked(s) if !g.granted[tid] => return StepResult::Parked(s),
+                TState::Finished => return StepResult::Finished,
+                _ => {}
+            }
+            let now = Instant::now();
+            if now >= deadline { return StepResult::Blocked; }
+            self.cv.wait_for(&mut g, deadline - now);
+        }
+    }
+
     pub fn runnable(&self) -> Vec<usize> {
         self.inner.lock().threads.iter().enumerate().filter(|(_, s)| matches!(s, TState::Parked(_))).map(|(i, _)| i).collect()
     }
